@@ -352,10 +352,11 @@ func proj(n *sx, i int) *sx {
 // ---------------------------------------------------------------------------
 
 type symEval struct {
-	c       *core.Ctx
-	info    *types.Info
-	depth   int
-	problem string // set when something could not be modelled
+	c        *core.Ctx
+	info     *types.Info
+	depth    int
+	problem  string // set when something could not be modelled
+	noInline bool   // keep every call opaque
 }
 
 type symEnv struct {
@@ -805,6 +806,9 @@ func (s *symEval) evalCall(x *ast.CallExpr, env *symEnv) *sx {
 
 // inlinable: a library function with source, short, without loops.
 func (s *symEval) inlinable(fn *types.Func) bool {
+	if s.noInline {
+		return false
+	}
 	if fn.Pkg() == nil || !strings.HasPrefix(fn.Pkg().Path(), core.GeoPath) {
 		return false
 	}
